@@ -22,8 +22,43 @@ theorem matrices_pointwise (g : Graph) (hv : validGraph g = true) (mms : List Ma
       ∧ mm.get i j = rateAt g dj.name di.name t :=
   Proofs.matrices_pointwise g hv mms ends h t ht i j di dj hi hj
 
+/-- Every returned matrix is square, with one row and one column per deme (so that the entry
+read by `Matrix.get` in `matrices_pointwise` is a genuine entry, never the out-of-range default). -/
+theorem matrices_shape (g : Graph) (hv : validGraph g = true) (mms : List Matrix) (ends : List Q)
+    (h : migrationMatrices g = .ok (mms, ends)) :
+    ∀ mm ∈ mms, mm.length = g.demes.length ∧ ∀ row ∈ mm, row.length = g.demes.length :=
+  Proofs.matrices_shape g hv mms ends h
+
+/-- Row `i` of the matrix of interval `k` sums to the total rate of the migrations into deme `i`
+that are active at the interval's end time `ends[k]`. -/
+theorem matrices_row_sum (g : Graph) (hv : validGraph g = true) (mms : List Matrix) (ends : List Q)
+    (h : migrationMatrices g = .ok (mms, ends)) (k i : Nat) (e : Q) (mm : Matrix) (row : List Q)
+    (di : Deme) (he : ends[k]? = some e) (hmm : mms[k]? = some mm) (hrow : mm[i]? = some row)
+    (hi : g.demes[i]? = some di) :
+    rowSum row = ingressAt g di.name e :=
+  Proofs.matrices_row_sum g hv mms ends h k i e mm row di he hmm hrow hi
+
+/-- No row of any returned matrix sums to more than one, beyond the relative 1e-9 tolerance
+that validation allows (`ingressOk x` is `x ≤ 1 ∨ x` close to 1). -/
+theorem matrices_rows_le_one (g : Graph) (hv : validGraph g = true) (mms : List Matrix) (ends : List Q)
+    (h : migrationMatrices g = .ok (mms, ends)) :
+    ∀ mm ∈ mms, ∀ row ∈ mm, ingressOk (rowSum row) = true :=
+  Proofs.matrices_rows_le_one g hv mms ends h
+
 /-- non-vacuity: a concrete two-deme graph with two migrations is valid, and its matrices
 are as expected. -/
 example : validGraph Proofs.exampleGraph = true := by decide +kernel
+
+example : (migrationMatrices Proofs.exampleGraph).toOption = some
+    ([ [[0, 0], [0, 0]],
+       [[0, 0], [1/4, 0]],
+       [[0, 1/8], [1/4, 0]],
+       [[0, 1/8], [0, 0]] ],
+     [40, 20, 10, 0]) := by decide +kernel
+
+/-- the interval containing `t = 15` is the third one, where both migrations are active -/
+example : intervalOf [40, 20, 10, 0] 15 = some 2
+    ∧ rateAt Proofs.exampleGraph "A" "B" 15 = 1/4 ∧ rateAt Proofs.exampleGraph "B" "A" 15 = 1/8 := by
+  decide +kernel
 
 end Demes.Theorems
